@@ -455,6 +455,15 @@ func init() {
 			// then names holding a lookup window twice are asked (decided by the fresh-engine oracle alone)
 			emit("big\t" + fmt.Sprint(17000+g.Intn(500)))
 			emit("gaps\t" + fmt.Sprint(g.Intn(1000)))
+			findCollisions()
+			for k := 0; k < cases/3+2; k++ {
+				ls, lines := genHistStorage(g, 25)
+				var ops []Req
+				for j := 0; j < 14; j++ {
+					ops = append(ops, histOp(g, lines, ops))
+				}
+				emit("transient\t" + encodeStorage(ls) + "\t" + encodeReqs(ops) + "\t" + fmt.Sprint(g.Intn(8)))
+			}
 			// histories of web requests (Engine.MatchRequest: request + referrer) on one engine, decided by the
 			// fresh-engine oracle: referrers with the same 32-bit hash, referrers differing in letter case, repeats
 			for k := 0; k < 4; k++ {
@@ -566,6 +575,54 @@ func init() {
 				st.Add("ops", len(srcs))
 				st.Inc("web_histories")
 				return "ok" + flags, "echo\tok", pa != ""
+			}
+			if f[0] == "transient" {
+				// a fault that goes away again (every list file handle replaced by a closed descriptor for a few queries,
+				// then put back): once the lists are readable again every answer is the one of a fresh engine — nothing
+				// about the failed retrievals is remembered
+				ls := decodeStorage(f[1])
+				ops := decodeReqs(f[2])
+				var at int
+				fmt.Sscan(f[3], &at)
+				h := newHistEngines(ls, true)
+				defer h.cleanup()
+				flags := ""
+				for _, rq := range ops[:at] {
+					protect(func() { h.runOp(rq) })
+				}
+				olds := make([]*os.File, len(h.files))
+				for i, fl := range h.files {
+					if nf, err := os.Open(fl.File.Name()); err == nil {
+						_ = nf.Close()
+						olds[i] = fl.File
+						fl.File = nf
+					}
+				}
+				for _, rq := range ops[at:] {
+					protect(func() { h.runOp(rq) })
+				}
+				for i, fl := range h.files {
+					if olds[i] != nil {
+						fl.File = olds[i]
+					}
+				}
+				for k, rq := range ops {
+					var got string
+					var gr *histResult
+					if p, msg := protect(func() { got, gr, _ = h.runOp(rq) }); p {
+						flags = "!PANIC-AFTER-A-TRANSIENT-FAULT:" + strings.ReplaceAll(msg, "\t", " ")
+						break
+					}
+					fresh := newHistEngines(ls, false)
+					want, wr, _ := fresh.runOp(rq)
+					fresh.cleanup()
+					if (got != want || gr.count() != wr.count()) && flags == "" {
+						flags = fmt.Sprintf("!HISTORY-DEPENDENT:op=%d answered %s after a fault that has gone away, a fresh engine answers %s", k, got, want)
+					}
+				}
+				st.Add("ops", 2*len(ops))
+				st.Inc("transient_fault_histories")
+				return "ok" + flags, "echo\tok", true
 			}
 			if f[0] == "gaps" {
 				// the same query again after EXACTLY d-1 other queries, for d around every width a counter could have
@@ -691,6 +748,7 @@ func init() {
 			// a long fault-free life before the fault: tens of thousands of distinct rules materialised after the ones the
 			// oracle asks about (nothing materialised is ever dropped, however many follow)
 			emit("bigfault\t" + fmt.Sprint(66000+g.Intn(6000)) + "\t" + fmt.Sprint(g.Intn(1000)))
+			emit("coldconc\t" + fmt.Sprint(g.Intn(1000)))
 			if tier == "thorough" {
 				emit("bigfault\t" + fmt.Sprint(132000+g.Intn(6000)) + "\t" + fmt.Sprint(g.Intn(1000)))
 			}
@@ -792,6 +850,78 @@ func init() {
 					h.cleanup()
 				}
 				st.Inc("late_failure_scenarios")
+				return "ok" + flags, "echo\tok", true
+			}
+			if f[0] == "coldconc" {
+				// after the fault many goroutines at once ask for rules that were never materialised (thousands of distinct
+				// cold rules, a few warm ones between them): no crash, warm rules are served, nothing else is returned
+				var k int
+				fmt.Sscan(f[1], &k)
+				var ls []listSpec
+				const per = 3000
+				for l := 0; l < 4; l++ {
+					var sb strings.Builder
+					for i := 0; i < per; i++ {
+						fmt.Fprintf(&sb, "||cc%d-%d-%d.example^\n", k, l, i)
+					}
+					ls = append(ls, listSpec{l + 1, false, sb.String()})
+				}
+				h := newHistEngines(ls, true)
+				name := func(l, i int) string { return fmt.Sprintf("cc%d-%d-%d.example", k, l, i) }
+				warm := map[string]string{}
+				for l := 0; l < 4; l++ {
+					for i := 0; i < per; i += 500 {
+						warm[name(l, i)], _, _ = h.runOp(Req{Kind: "dns", Hostname: name(l, i)})
+					}
+				}
+				// the fault-free answers (a rule may also have been materialised as a by-product of another lookup: after
+				// the fault a cold name gets the fault-free answer or the empty one, nothing else)
+				oracle := newHistEngines(ls, false)
+				full := map[string]string{}
+				for l := 0; l < 4; l++ {
+					for i := 0; i < per; i++ {
+						full[name(l, i)], _, _ = oracle.runOp(Req{Kind: "dns", Hostname: name(l, i)})
+					}
+				}
+				empty, _, _ := oracle.runOp(Req{Kind: "dns", Hostname: "nothing-of-the-kind.invalid"})
+				oracle.cleanup()
+				_ = h.storage.Close()
+				var mu sync.Mutex
+				flags := ""
+				var wg sync.WaitGroup
+				for w := 0; w < 16; w++ {
+					wg.Add(1)
+					go func(w int) {
+						defer wg.Done()
+						for j := 0; j < 4*per; j++ {
+							jj := (j*7 + w*761) % (4 * per)
+							nm := name(jj/per, jj%per)
+							var got string
+							p, msg := protect(func() { got, _, _ = h.runOp(Req{Kind: "dns", Hostname: nm}) })
+							want, isWarm := warm[nm]
+							bad := ""
+							switch {
+							case p:
+								bad = "!PANIC-AFTER-FAULT:" + strings.ReplaceAll(msg, "\t", " ")
+							case isWarm && got != want:
+								bad = fmt.Sprintf("!MATERIALISED-RULE-NOT-SERVED:%s answered %s", nm, got)
+							case !isWarm && got != empty && got != full[nm]:
+								bad = fmt.Sprintf("!NOT-SUBSET:%s answered %s, fault-free answer %s", nm, got, full[nm])
+							}
+							if bad != "" {
+								mu.Lock()
+								if flags == "" {
+									flags = bad
+								}
+								mu.Unlock()
+								return
+							}
+						}
+					}(w)
+				}
+				wg.Wait()
+				h.cleanup()
+				st.Inc("concurrent_cold_queries_after_the_fault")
 				return "ok" + flags, "echo\tok", true
 			}
 			if f[0] == "bigfault" {
